@@ -276,14 +276,33 @@ def check_ring(pid, tier, t0):
     else:
         scs, stats = ring_scenarios(tier, 'plain', lambda t, r: not FAULTY(t), wide=True)
         u = run_unit('ring-nofault-%s' % tier, scs)
+    rs = random_scenarios(tier, fault_prop)
+    ur = run_unit('rand-%s-%s-%d' % ('fault' if fault_prop else 'nofault', tier, seed()), rs)
     rel = [s for s in scs if want(set(s['tags']), {'evs': [{'op': s['first_op']}]})]
     cov = l1_cov(stats)
+    cov['random_histories'] = {'scenarios': len(rs), 'capacities': RAND_NS, 'length': 80, 'seed': seed(),
+                               'note': 'seeded random client programs over up to three buffers and two views (all operations, out-of-range and usize::MAX arguments, '
+                                       'partial view consumption, poisoning%s); validated against the contract only' % (', injected faults, forgotten drains' if fault_prop else '')}
     cov['states_note'] = 'states/transitions = TLC trace-validation runs; l1_* = exhaustive TLC run of spec/Ring.tla (refinement L1 => L0 checked on every transition)'
     cov['samples'] = sample_of(rel)
     cov['scenario_tags'] = tag_hist(rel)
     cov['scenarios_exercising_this_property'] = len(rel)
     cov['scenarios_in_unit'] = len(scs)
-    return judge(pid, [u], tier, t0, 'model_checking', cov, COMMON_ASSUME)
+    units = [u, ur]
+    if pid == 'C10':
+        # forgotten drains also occur in the random histories with faults
+        rf = random_scenarios(tier, True)
+        units.append(run_unit('rand-fault-%s-%d' % (tier, seed()), rf))
+    return judge(pid, units, tier, t0, 'model_checking', cov, COMMON_ASSUME)
+
+
+RAND_NS = [1, 2, 3, 5, 8, 16, 33]
+
+
+def random_scenarios(tier, faults):
+    rnd = random.Random(seed() * 2 + (1 if faults else 0))
+    per = 100 if tier == 'quick' else 1000
+    return [scen.random_history(rnd, n, 'rnd%s%d-%d' % ('f' if faults else '', n, k), 80, faults) for n in RAND_NS for k in range(per)]
 
 
 def tag_hist(scs):
